@@ -61,4 +61,66 @@ def run(case):
     return res
 
 
-PARTS = [Part("episodes", strategy=lambda tier: cases(tier), run=run, quick=2500, thorough=150000)]
+# ------------------------------------------------------------------------------------ tabular front-end
+import numpy as np
+
+from vlib import xylab
+
+
+@st.composite
+def xy_cases(draw, tier="quick"):
+    c = draw(xylab.cases(tier))
+    c["fold2"] = None
+    c["steps_delay"] = draw(st.sampled_from([0, 0, 1, 2, 3]))
+    c["margin"] = 0.0
+    return c
+
+
+def run_xy(case):
+    """TradingEnvXY(steps_delay=d): execution k carries the weights submitted at decision k-d, zeros before."""
+    res = Result()
+    env = xylab.build_env(case)
+    d = case["steps_delay"]
+    env.reset(case["fold"] if case["folds"] is not None else "training-set")
+    contracts = list(env.action_space.contracts)
+    n = len(contracts)
+    submitted = []
+    k = 0
+    done = False
+    lo, hi = case["max_short"], case["max_long"]
+    while not done and k < 60:
+        # pairwise distinct in-bounds weight vectors
+        w = [lo + (hi - lo) * (((k + 1) * 37 + 11 * i) % 97 + 1) / 99.0 for i in range(n)]
+        w = [x / n if abs(x / n) >= 1e-3 else 1e-3 for x in w]
+        action = np.array(w)
+        quoted = [not np.isnan(env.exchange[c].bid_price) for c in contracts]
+        submitted.append(w)
+        try:
+            obs, reward, done, info = env.step(action)
+        except Exception as exc:  # noqa
+            if all(quoted) and k - d >= 0:
+                raise
+            res.excluded = "unquoted-asset-targeted"
+            break
+        k += 1
+        if not info:
+            res.excluded = "ended-by-insolvency"
+            break
+        entry = env.broker.track_record[-1]
+        src = k - 1 - d
+        want = {contracts[i].symbol: float(submitted[src][i]) for i in range(n)} if src >= 0 else {}
+        got = {c.symbol: float(v) for c, v in entry.allocation.items()}
+        if got != want:
+            res.fail("TradingEnvXY(steps_delay=%d): execution %d carries %s, the weights submitted at decision %d are %s" % (d, k, got, src + 1, want))
+            break
+    res.nontrivial = k > d + 1
+    res.tag("xy-delay=%d" % d)
+    return res
+
+
+PARTS = [
+    Part("episodes", strategy=lambda tier: cases(tier), run=run, quick=2500, thorough=150000),
+    Part("xy-delay", strategy=lambda tier: xy_cases(tier), run=run_xy, quick=300, thorough=8000),
+]
+RULE = RULE + (" xy-delay: TradingEnvXY configurations (xylab) with steps_delay in {0,1,2,3} and pairwise distinct weight vectors: execution k must carry "
+               "the weights of decision k-d (zeros for the first d).")
